@@ -4,6 +4,7 @@
 From Coq Require Import List ZArith QArith Bool.
 From PV Require Import lib.Sx lib.Str lib.Result.
 From PV Require Import model.Base model.TimeRead model.TimeWrite.
+From PV Require model.TextWrite model.TextRead.
 Import ListNotations.
 Open Scope Z_scope.
 
@@ -81,12 +82,37 @@ Fixpoint srt_write_blocks (k : Z) (cs : list (Z * Z * list str)) : str :=
   match cs with [] => [] | c :: t => srt_write_block k c ++ srt_write_blocks (k + 1) t end.
 Definition srt_write_doc (cs : list (Z * Z * list str)) : str := removelast (srt_write_blocks 1 cs).
 
+(* ---- WebVTT at string level (wave 6): the document WebVTTWriter prints for captions given as text lines (no layout, no
+   style): header, per caption the timing line and the lines, every line through the writer's escaping
+   (TextWrite.vtt_encode: & < and the arrow), captions joined by a blank line; the last cue has no blank line after it.
+   Reading: the C01 model of WebVTTReader's line loop (lenient, no shift) and, on every text line, the reader's decoding
+   (TextRead.vtt_decode: strip, voice and tag substitution, the entity chain).  Request 805 compares the writer model's
+   documents with the real writer's. *)
+Definition vtt_write_cue (c : Z * Z * list str) : str :=
+  let '(s, e, lines) := c in
+  vtt_ts (inject_Z s) ++ lit " --> " ++ vtt_ts (inject_Z e) ++ [10]
+  ++ join [10] (map TextWrite.vtt_encode lines) ++ [10].
+Definition vtt_write_doc (cs : list (Z * Z * list str)) : str :=
+  lit "WEBVTT" ++ [10; 10] ++ join [10] (map vtt_write_cue cs).
+Definition vtt_read_doc (d : str) : result (list rcap) :=
+  match vtt_read false 0 d with
+  | Ok caps => Ok (map (fun c => (fst c, map (TextRead.vtt_decode true) (snd c))) caps)
+  | Err e => Err e
+  end.
+
+(* several languages through the single-language formats, as the writers do it: SRTWriter joins the languages' documents
+   with the line MULTI-LANGUAGE SRT, MicroDVDWriter concatenates them (WebVTTWriter writes the first language only) *)
+Definition srt_write_set (langs : list (list (Z * Z * list str))) : str :=
+  join (lit "MULTI-LANGUAGE SRT" ++ [10]) (map srt_write_doc langs).
+Definition mdvd_write_set (langs : list (list (Z * Z * list str))) : str := concat (map mdvd_write langs).
+
 (* a hop at DOCUMENT level for the line formats whose writer is modelled at string level: print the document, read it
    with the model of the format's reader; captions are (start, end, text lines) *)
 Definition hop_doc (f : fmt) (cs : list (Z * Z * list str)) : result (list (Z * Z * list str)) :=
   match f with
   | FSrt => srt_read (srt_write_doc cs)
   | FMdvd => mdvd_read (mdvd_write cs)
+  | FVtt => vtt_read_doc (vtt_write_doc cs)
   | _ => Err ENotImplemented
   end.
 Fixpoint run_doc (chain : list fmt) (cs : list (Z * Z * list str)) : result (list (Z * Z * list str)) :=
